@@ -156,4 +156,32 @@ Section J.
       unfold head. rewrite (read_date_print d Hd), (read_ticker_id tk Ht). cbn [jbind].
       rewrite (read_dec_print q Hq). cbn [jbind]. rewrite (positive_ok q Hp0), (read_money_print p Hp). reflexivity.
   Qed.
+  (* normalize_operation_action: the action's letter case is free, and CAP_RETURN is CAPRETURN *)
+  Lemma jlookup_skip k k' v rest : teqb k k' = false -> jlookup k ((k', v) :: rest) = jlookup k rest.
+  Proof. intros H. cbn [jlookup]. rewrite H. reflexivity. Qed.
+  Lemma jlookup_here k v rest : teqb k k = true -> jlookup k ((k, v) :: rest) = Some v.
+  Proof. intros H. cbn [jlookup]. rewrite H. reflexivity. Qed.
+
+  Ltac skip_action :=
+    unfold pos_dec, req, opt_money;
+    rewrite ?(jlookup_skip K_AMOUNT K_ACTION), ?(jlookup_skip K_PRICE K_ACTION), ?(jlookup_skip K_FEES K_ACTION),
+            ?(jlookup_skip K_TOTAL_VALUE K_ACTION), ?(jlookup_skip K_TAX_PAID K_ACTION), ?(jlookup_skip K_RATIO K_ACTION) by reflexivity.
+
+  Theorem json_action_case a a' rest :
+    is_ascii_text a = true -> is_ascii_text a' = true -> upper_text a = upper_text a' ->
+    read_op vc ((K_ACTION, JStr a) :: rest) = read_op vc ((K_ACTION, JStr a') :: rest).
+  Proof.
+    intros Ha Ha' Hu. unfold read_op. rewrite !(jlookup_here K_ACTION) by reflexivity. rewrite Ha, Ha', Hu. cbn [negb].
+    skip_action. reflexivity.
+  Qed.
+
+  Theorem json_cap_return_alias rest :
+    read_op vc ((K_ACTION, JStr A_CAP_RETURN) :: rest) = read_op vc ((K_ACTION, JStr KW_CAPRETURN) :: rest).
+  Proof.
+    unfold read_op. rewrite !(jlookup_here K_ACTION) by reflexivity.
+    replace (is_ascii_text A_CAP_RETURN) with true by reflexivity. replace (is_ascii_text KW_CAPRETURN) with true by reflexivity. cbn [negb].
+    replace (upper_text A_CAP_RETURN) with A_CAP_RETURN by reflexivity. replace (upper_text KW_CAPRETURN) with KW_CAPRETURN by reflexivity.
+    replace (teqb A_CAP_RETURN A_CAP_RETURN) with true by reflexivity. replace (teqb KW_CAPRETURN A_CAP_RETURN) with false by reflexivity.
+    skip_action. reflexivity.
+  Qed.
 End J.
